@@ -8,6 +8,9 @@ import (
 
 func init() {
 	register("C07", "cases: the C06 input families, both directions: library Writer -> independent canonical decoder (harness/cmd/corr/canon.go, a transcription of LZHUF.C) and canonical encoder -> library Reader, with/without the CRC header; the canonical B2 header is recomputed with a bitwise CRC-16/XMODEM; the five golden testdata/*.lzh files. The Lean transcription (Lzhuf.Canon) is compared with the Go transcription on every case (canonenc/canondec). Non-trivial: inputs >= 61 bytes; distinct by case line.", func(c *Ctx) {
+		// the Reader is fed through fragmenting sources as well (see lzSource)
+		lzFragmentSources = true
+		defer func() { lzFragmentSources = false }()
 		var cases []Case
 		ins := lzInputs(c, c.Budget(20000, 150000), c.Budget(120, 700))
 		files := testdataFiles()
